@@ -1147,50 +1147,23 @@ pub fn array_copy_within(
     let elements = arr_ref
         .array_elements_mut()
         .ok_or_else(|| JsError::type_error("Array.prototype.copyWithin called on non-array"))?;
-    let length = elements.len() as i64;
+    let length = elements.len();
 
-    let target = args
-        .first()
-        .map(|v| {
-            let n = v.to_number() as i64;
-            if n < 0 {
-                (length + n).max(0)
-            } else {
-                n.min(length)
-            }
-        })
-        .unwrap_or(0) as usize;
+    let target = relative_index(args.first(), length, 0);
+    let start = relative_index(args.get(1), length, 0);
+    let end = relative_index(args.get(2), length, length);
 
-    let start = args
-        .get(1)
-        .map(|v| {
-            let n = v.to_number() as i64;
-            if n < 0 {
-                (length + n).max(0)
-            } else {
-                n.min(length)
-            }
-        })
-        .unwrap_or(0) as usize;
+    // count = min(end - start, length - target); both ranges stay inside the array
+    let count = end.saturating_sub(start).min(length - target);
 
-    let end = args
-        .get(2)
-        .map(|v| {
-            let n = v.to_number() as i64;
-            if n < 0 {
-                (length + n).max(0)
-            } else {
-                n.min(length)
-            }
-        })
-        .unwrap_or(length) as usize;
-
-    // Copy elements to temporary Vec first to avoid borrow issues
-    let copied: Vec<JsValue> = elements.get(start..end).unwrap_or_default().to_vec();
+    // Copy elements to temporary Vec first: the two ranges may overlap
+    let copied: Vec<JsValue> = elements
+        .get(start..start + count)
+        .unwrap_or_default()
+        .to_vec();
 
     for (i, val) in copied.into_iter().enumerate() {
-        let target_idx = target + i;
-        if let Some(slot) = elements.get_mut(target_idx) {
+        if let Some(slot) = elements.get_mut(target + i) {
             *slot = val;
         }
     }
